@@ -4,8 +4,9 @@
     text, whitespace variants) through the REAL safe_eval with the constructor replaced by a
     recorder, vs the model parser, vs the model's reference reader `pyCall`, vs Python's own
     compile()/ast reading of the same text (clause: safe_eval == Python).
-(b) carved-out and malformed streams: list literals, repeated keywords, trailing blanks after
-    keyword values (known deviations), and junk text (error kinds / accepted junk, tie only).
+(b) formerly carved-out forms, now ordinary members of the clause (repaired in the fix round):
+    list literals `[a,b]` / `[a]` / `[]`, repeated keywords (SyntaxError as in Python), blanks
+    after keyword values; and junk text (error kinds / accepted junk, tie only).
 (c) str direction over the C09 option lattice: str(q) vs model print (string equality),
     get_quantizer(str(q)) vs the model's verdict and rebuilt fields, and the clause oracle:
     no exception, identical outputs / scale / gradients on probe tensors.
@@ -35,7 +36,11 @@ def _digits(rng, lo, hi, leading_zero_ok=False):
 
 
 def gen_lit(rng, kind=None):
-  kind = kind or ["none", "bool", "int", "int", "float", "float", "str"][int(rng.integers(7))]
+  kind = kind or ["none", "bool", "int", "int", "float", "float", "str", "list"][int(rng.integers(8))]
+  if kind == "list":
+    n = [0, 1, 2, 2, 3, 4][int(rng.integers(6))]
+    return {"t": "list", "ns": [gen_lit(rng, ["int", "int", "float"][int(rng.integers(3))])
+                                for _ in range(n)]}
   if kind == "none":
     return {"t": "none"}
   if kind == "bool":
@@ -58,8 +63,10 @@ def gen_lit(rng, kind=None):
   return {"t": "str", "dq": bool(rng.integers(2)), "cs": cs}
 
 
-def lit_text(l):
+def lit_text(l, sep=","):
   t = l["t"]
+  if t == "list":
+    return "[" + sep.join(lit_text(e) for e in l["ns"]) + "]"
   if t == "none":
     return "None"
   if t == "bool":
@@ -107,16 +114,21 @@ def gen_args(rng, pool, allow_bad_order=True):
 
 
 def render(name, args, ws=0, rng=None):
-  """ws=0 canonical (must equal the model's render); 1: blank after commas; 2: random blanks
-  where Python and pyparsing both ignore them (never after a keyword value); 3: also a blank
-  after every argument (trailing blank after keyword values: known deviation)"""
+  """ws=0 canonical (must equal the model's render); 1: blank after commas (inside lists too);
+  2: random blanks where Python ignores them, inside lists too (never after a keyword value);
+  3: also a blank after every argument (i.e. after keyword values)"""
   def blank():
     if ws < 2:
       return ""
     return ["", " ", "  ", "\t", " \n "][int(rng.integers(5))]
   parts = []
   for i, a in enumerate(args):
-    t = lit_text(a["lit"])
+    if ws == 0:
+      t = lit_text(a["lit"])
+    elif ws == 1:
+      t = lit_text(a["lit"], ", ")
+    else:
+      t = lit_text(a["lit"], blank() + "," + blank())
     last = i == len(args) - 1
     if a["k"] is None:
       s = blank() + t + blank()
@@ -203,12 +215,14 @@ def run(run: core.Run, tier: str):
       "grammar: per registered name, generated argument lists (0-6 arguments, positional then "
       "keyword, 1 in 6 shuffled; None/True/False, signed ints up to 12 digits, signed floats "
       "with optional exponent, quoted strings over a 90-symbol alphabet incl. 'True'/'None'/'1.5' "
-      "as string contents) x 3 whitespace layouts; carved-out forms and junk text as separate "
-      "streams; str direction: the C09 option lattice (qkv.qlattice). non-trivial = distinct text "
-      "/ distinct (class, keyword set)")
+      "as string contents, lists of 0-4 numbers) x 4 whitespace layouts (the 4th with blanks after "
+      "keyword values); fixed list / repeated-keyword forms and junk text as separate streams; "
+      "str direction: the C09 option lattice (qkv.qlattice). non-trivial = distinct text / "
+      "distinct (class, keyword set)")
   run.assumptions.append(
       "pyparsing's matching of the GetParams grammar is modelled by comma segments up to the "
-      "first ')' (tied on generated and malformed text); int()/float() on ASCII decimal text "
+      "first ')' outside a bracketed number list (tied on generated and malformed text); "
+      "int()/float() on ASCII decimal text "
       "without '_' / inf / nan; CPython rounds a decimal literal to binary64 identically in "
       "float(s) and in the compiler (device 1: the model carries the exact decimal)")
   run.assumptions.append(
@@ -230,7 +244,7 @@ def run(run: core.Run, tier: str):
         cases.append(("grammar", name, args, render(name, args, ws, rng), ws))
       if any(a["k"] is not None for a in args):
         cases.append(("kw_trailing_ws", name, args, render(name, args, 3, rng), 3))
-  # carved-out forms
+  # forms the unrepaired parser misread (findings C10-parse-* of the first round, now fixed)
   for name in names[:4] if tier == "quick" else names:
     for _ in range(6):
       k = gen_ident(rng, [p[0] for p in model_cls[name]["params"]])
@@ -298,7 +312,13 @@ def run(run: core.Run, tier: str):
           "f(a=[1 'b'])", "f(a=[2 3])", "f([2 3])", "f(a=1,b)", "f(a=1,2,c=3)", "f(1,a=2,3)", "f(\t1\n,\n2)",
           "f(a\t=\t1)", "f(a= None)", "f(a=None )", "f(a=True )", "f('a=b')", "f(k='a=b')", "f( a = 'x y' )",
           "f(0x10)", "f(a=-3)", "f(a= -3)", "f(- 3)", "f(1,2,3,4,5,6,7,8,9)", "f(a=1;b=2)", "f(\"q\")",
-          "f(a=\"x\",b='y')", "f(None)", "f(None,True,False)", "f(a=Nonee)", "f(TrueFalse)", "f(a=1.)", " f(1)"]
+          "f(a=\"x\",b='y')", "f(None)", "f(None,True,False)", "f(a=Nonee)", "f(TrueFalse)", "f(a=1.)", " f(1)",
+          # brackets: where a number list is part of a token and where it is not
+          "f(x[1,2]y)", "f(a=[1,2]x)", "f(a=[1,2)", "f('[a', b=']')", "f(a [1,2])", "f([1,2] x)",
+          "f(a=[1,2) ])", "f([1,[2,3]])", "f(a=[1,'b'])", "f([1,2]=3)", "f(a=1 [2,3])", "f([,1])",
+          "f([1,2,])", "f(a=[1\t2])", "f([ ])", "f([1;2])", "f(a=[+1,-2.5e-3])", "f(a=[1,2],a=[3])",
+          "f(a=[1, 2] , b = [ ] )", "f([1,2],[3,4])", "f(a=[)", "f(a=])", "f(a=[1,2]])", "f(a=[[1,2])",
+          "f('[1,2]')", "f(k='[1' ,j='2]')", "f([1,\n2])", "f(a=[1,2],3)"]
   for _ in range(60 if tier == "quick" else 600):
     # random damage to a generated text: delete / duplicate / insert one character
     args = gen_args(rng, [])
